@@ -395,6 +395,12 @@ static void after_op(World &w, const Op &op, int rc) {
         // replace-whole-list setters re-link every member in the order given: relative order of survivors is theirs to choose
         bool relinks = op.kind == OP_tag_setrefs || op.kind == OP_set_sources || op.kind == OP_group_set;
         if (!relinks && !order_preserved(w.last, doc, where)) w.fail("C03.order", where);
+        if (!w.del_victim.empty() && (rc == 1 || !w.del_result) && !node_equal(w.last, doc, where)) {
+            // a delete that threw or reported "nothing removed" and changed the document all the same stopped half way: the victim is still
+            // exposed somewhere or something else was harmed
+            w.cnt.inc("delete.failed_but_changed");
+            w.fail("C04.transform", "deleting " + w.del_victim + (rc == 1 ? " threw" : " returned false") + " but the document changed at " + where);
+        }
         if (!w.del_victim.empty() && rc == 0 && w.del_result) {
             Node expect = w.last;
             std::set<std::string> ids;
